@@ -340,7 +340,16 @@ def cache_file(ctx, f, cfg):
         return
     sl = Slicer(f, b)
     roles = [("cached", ["field:FilePosition.metric_filename"], []), ("file", ["call:Iterator::next"], ["field:FilePosition.metric_filename"])]
-    w = D.Walker(f, b, make_classifier(roles), unroll=1)
+    base_cls = make_classifier(roles)
+
+    def cls_(atoms, op=None):
+        r = base_cls(atoms, op)
+        # `filenames.iter().position(|v| v == &cached.metric_filename)`: the closure's element is a file of the listing as well
+        if r.startswith("other:") and any(x.startswith("call:") and x.endswith("::iter") for x in atoms) and any(x.startswith("param:") and x != "param:self" for x in atoms) \
+                and not any_atom(atoms, "field:FilePosition.metric_filename"):
+            return "file"
+        return r
+    w = D.Walker(f, b, cls_, unroll=1)
     # blocks that store the chosen file index (a user variable fed by the enumerate() index)
     stores = set()
     # the locals returned in the (offset, file index) tuple
@@ -362,6 +371,9 @@ def cache_file(ctx, f, cfg):
             if st["k"] == "assign" and not st["lhs"]["p"] and st["lhs"]["l"] in returned and b.local_ty(st["lhs"]["l"]) == "usize" and st["rv"]["k"] == "use":
                 at = sl.of_operand(st["rv"]["op"])
                 if any(x.startswith("call:") and x.endswith("::next") for x in at) and any_atom(at, "call:Iterator::enumerate"):
+                    stores.add(bi)
+                # ... or by the index `position` found, counted from the front of the whole listing
+                elif any_atom(at, "call:Iterator::position") and not any(x.startswith("call:") and x.rsplit("::", 1)[-1] in ("rev", "skip", "skip_while", "filter", "step_by", "rposition") for x in at):
                     stores.add(bi)
     paths = [p for p in w.walk(0, lambda bb, env: None) if _feasible(p)]
     n = 0
